@@ -364,3 +364,154 @@ Proof. exact @tiea_scan. Qed.
 Theorem C16_model_is_source_scan_empty :
   forall (T : Type) (O : Ops T) (tgt : list T) (i : Z), src_scan O [] tgt i 0%Z = None.
 Proof. exact @tiea_scan_empty. Qed.
+
+(** ** On binary64, inside a segment: between the two ordinates UP TO ROUNDING, and close to the real chord (extension).
+    [C16_interp_inside] (reals) says the value lies between the two neighbouring ordinates; on binary64 that is false as an
+    exact statement ([C16_between_only_up_to_rounding_binary64]: one ulp outside).  What holds, for every knot vector of finite,
+    strictly increasing abscissae whose segment widths do not overflow, every finite target inside the range and every mode:
+    the model returns the binary64 value  v = ratio*y1 + (1 - ratio)*y0  (the code's operation order: two products, one
+    subtraction, one addition, each rounded to nearest) of the bracketing segment [x_k, x_k+1], with 0 <= ratio <= 1, and
+    whenever v is FINITE (no overflow of the final addition; the products cannot overflow; finiteness of v forces finite
+    ordinates), with u = 2^-53:
+      - [C16_between_up_to_rounding_binary64]
+            min(y0,y1) - 3u|min(y0,y1)| - 2^-1073  <=  v  <=  max(y0,y1) + 3u|max(y0,y1)| + 2^-1073
+        with NO side condition on underflow (2^-1073 = twice the smallest subnormal covers two underflowing products), and, when
+        neither of the two products ratio*y1, (1 - ratio)*y0 underflows (each exact product is 0 or at least 2^-1022 in magnitude),
+            min(y0,y1) - 3u max(|y0|,|y1|)  <=  v  <=  max(y0,y1) + 3u max(|y0|,|y1|);
+      - [C16_chord_error_binary64]  | v - (ratio*y1 + (1 - ratio)*y0 over the reals) |  <=  3u max(|y0|,|y1|) + 2^-1073,
+        the term 2^-1073 being absent when neither product underflows.
+    The constant 3 comes from three roundings on every path from an ordinate to the result, each of relative size at most
+    u/(1+u), and (1 + u/(1+u))^3 <= 1 + 3u. *)
+Local Open Scope R_scope.
+From Compute Require Proofs.C16Err.
+
+Theorem C16_between_up_to_rounding_binary64 :
+  forall (tbl : libm_table) (x y : list PrimFloat.float) (m : mode PrimFloat.float),
+    (2 <= length x)%nat ->
+    (forall i, (i < length x)%nat -> PrimFloat.is_finite (nth i x 0%float) = true) ->
+    (forall i, (S i < length x)%nat -> PrimFloat.ltb (nth i x 0%float) (nth (S i) x 0%float) = true) ->
+    (forall i, (S i < length x)%nat ->
+               PrimFloat.is_finite (PrimFloat.sub (nth (S i) x 0%float) (nth i x 0%float)) = true) ->
+    forall t, PrimFloat.is_finite t = true ->
+    FR (nth 0 x 0%float) <= FR t <= FR (nth (length x - 1) x 0%float) ->
+    exists k v, (S k < length x)%nat /\
+      FR (nth k x 0%float) <= FR t <= FR (nth (S k) x 0%float) /\
+      interp1 (FO tbl) x y (length x) m t = Some v /\
+      let ratio := ((t - nth k x 0%float) / (nth (S k) x 0%float - nth k x 0%float))%float in
+      let y0 := nth k y 0%float in let y1 := nth (S k) y 0%float in
+      v = (ratio * y1 + (1 - ratio) * y0)%float /\
+      (PrimFloat.is_finite v = true ->
+       (Rmin (FR y0) (FR y1) - 3 * / 2 ^ 53 * Rabs (Rmin (FR y0) (FR y1)) - / 2 ^ 1073 <= FR v
+        <= Rmax (FR y0) (FR y1) + 3 * / 2 ^ 53 * Rabs (Rmax (FR y0) (FR y1)) + / 2 ^ 1073) /\
+       ((FR ratio * FR y1 = 0 \/ / 2 ^ 1022 <= Rabs (FR ratio * FR y1)) ->
+        (FR (1 - ratio) * FR y0 = 0 \/ / 2 ^ 1022 <= Rabs (FR (1 - ratio) * FR y0)) ->
+        Rmin (FR y0) (FR y1) - 3 * / 2 ^ 53 * Rmax (Rabs (FR y0)) (Rabs (FR y1)) <= FR v
+        <= Rmax (FR y0) (FR y1) + 3 * / 2 ^ 53 * Rmax (Rabs (FR y0)) (Rabs (FR y1)))).
+Proof. exact @Proofs.C16Err.between_up_to_rounding_binary64. Qed.
+
+Theorem C16_chord_error_binary64 :
+  forall (tbl : libm_table) (x y : list PrimFloat.float) (m : mode PrimFloat.float),
+    (2 <= length x)%nat ->
+    (forall i, (i < length x)%nat -> PrimFloat.is_finite (nth i x 0%float) = true) ->
+    (forall i, (S i < length x)%nat -> PrimFloat.ltb (nth i x 0%float) (nth (S i) x 0%float) = true) ->
+    (forall i, (S i < length x)%nat ->
+               PrimFloat.is_finite (PrimFloat.sub (nth (S i) x 0%float) (nth i x 0%float)) = true) ->
+    forall t, PrimFloat.is_finite t = true ->
+    FR (nth 0 x 0%float) <= FR t <= FR (nth (length x - 1) x 0%float) ->
+    exists k v, (S k < length x)%nat /\
+      FR (nth k x 0%float) <= FR t <= FR (nth (S k) x 0%float) /\
+      interp1 (FO tbl) x y (length x) m t = Some v /\
+      let ratio := ((t - nth k x 0%float) / (nth (S k) x 0%float - nth k x 0%float))%float in
+      let y0 := nth k y 0%float in let y1 := nth (S k) y 0%float in
+      v = (ratio * y1 + (1 - ratio) * y0)%float /\
+      0 <= FR ratio <= 1 /\
+      (PrimFloat.is_finite v = true ->
+       Rabs (FR v - (FR ratio * FR y1 + (1 - FR ratio) * FR y0))
+         <= 3 * / 2 ^ 53 * Rmax (Rabs (FR y0)) (Rabs (FR y1)) + / 2 ^ 1073 /\
+       ((FR ratio * FR y1 = 0 \/ / 2 ^ 1022 <= Rabs (FR ratio * FR y1)) ->
+        (FR (1 - ratio) * FR y0 = 0 \/ / 2 ^ 1022 <= Rabs (FR (1 - ratio) * FR y0)) ->
+        Rabs (FR v - (FR ratio * FR y1 + (1 - FR ratio) * FR y0))
+          <= 3 * / 2 ^ 53 * Rmax (Rabs (FR y0)) (Rabs (FR y1)))).
+Proof. exact @Proofs.C16Err.chord_error_binary64. Qed.
+
+(** the same two bounds for the bare formula, for any binary64 ratio in [0,1] and any two ordinates (what the two theorems above
+    instantiate at the bracketing segment) *)
+Theorem C16_segment_formula_rounding_binary64 :
+  forall r y0 y1 : PrimFloat.float,
+    PrimFloat.is_finite r = true -> 0 <= FR r <= 1 ->
+    PrimFloat.is_finite (r * y1 + (1 - r) * y0)%float = true ->
+    (Rmin (FR y0) (FR y1) - 3 * / 2 ^ 53 * Rabs (Rmin (FR y0) (FR y1)) - / 2 ^ 1073 <= FR (r * y1 + (1 - r) * y0)%float
+     <= Rmax (FR y0) (FR y1) + 3 * / 2 ^ 53 * Rabs (Rmax (FR y0) (FR y1)) + / 2 ^ 1073) /\
+    Rabs (FR (r * y1 + (1 - r) * y0)%float - (FR r * FR y1 + (1 - FR r) * FR y0))
+      <= 3 * / 2 ^ 53 * Rmax (Rabs (FR y0)) (Rabs (FR y1)) + / 2 ^ 1073.
+Proof.
+  intros r y0 y1 Fr Hr Fv. split.
+  - exact (proj1 (Proofs.C16Err.convex_between r y0 y1 Fr Hr Fv)).
+  - exact (proj1 (Proofs.C16Err.convex_chord_error r y0 y1 Fr Hr Fv)).
+Qed.
+
+(** the computed ratio against the real ratio (t - a)/(b - a): three roundings (two differences, one quotient; the quotient alone can
+    underflow, absolute error at most 2^-1075) *)
+Theorem C16_ratio_error_binary64 :
+  forall a b t : PrimFloat.float,
+    PrimFloat.is_finite a = true -> PrimFloat.is_finite b = true -> PrimFloat.is_finite t = true ->
+    FR a < FR b -> FR a <= FR t <= FR b -> PrimFloat.is_finite (b - a)%float = true ->
+    Rabs (FR ((t - a) / (b - a))%float - (FR t - FR a) / (FR b - FR a))
+      <= 4 * / 2 ^ 53 * ((FR t - FR a) / (FR b - FR a)) + / 2 ^ 1075.
+Proof. exact Proofs.C16Err.ratio_error. Qed.
+
+(** ... hence the binary64 result against the REAL straight line through the two bracketing knots evaluated at the target
+    ([line] of Spec/Interp.v, the value [C16_interp_inside] assigns on the reals): for every finite in-range target whose result v is finite,
+        | v - line(x_k, y_k, x_k+1, y_k+1, t) |  <=  3u max(|y_k|,|y_k+1|) + (4u + 2^-1075) |y_k+1 - y_k| + 2^-1073     (u = 2^-53),
+    where |y_k+1 - y_k| <= 2 max(|y_k|,|y_k+1|) *)
+Theorem C16_line_error_binary64 :
+  forall (tbl : libm_table) (x y : list PrimFloat.float) (m : mode PrimFloat.float),
+    (2 <= length x)%nat ->
+    (forall i, (i < length x)%nat -> PrimFloat.is_finite (nth i x 0%float) = true) ->
+    (forall i, (S i < length x)%nat -> PrimFloat.ltb (nth i x 0%float) (nth (S i) x 0%float) = true) ->
+    (forall i, (S i < length x)%nat ->
+               PrimFloat.is_finite (PrimFloat.sub (nth (S i) x 0%float) (nth i x 0%float)) = true) ->
+    forall t, PrimFloat.is_finite t = true ->
+    FR (nth 0 x 0%float) <= FR t <= FR (nth (length x - 1) x 0%float) ->
+    exists k v, (S k < length x)%nat /\
+      FR (nth k x 0%float) <= FR t <= FR (nth (S k) x 0%float) /\
+      interp1 (FO tbl) x y (length x) m t = Some v /\
+      (PrimFloat.is_finite v = true ->
+       Rabs (FR v - line (FR (nth k x 0%float)) (FR (nth k y 0%float)) (FR (nth (S k) x 0%float)) (FR (nth (S k) y 0%float)) (FR t))
+         <= 3 * / 2 ^ 53 * Rmax (Rabs (FR (nth k y 0%float))) (Rabs (FR (nth (S k) y 0%float)))
+            + (4 * / 2 ^ 53 + / 2 ^ 1075) * Rabs (FR (nth (S k) y 0%float) - FR (nth k y 0%float)) + / 2 ^ 1073).
+Proof. exact @Proofs.C16Err.line_error_binary64. Qed.
+
+(** overflow is excluded (the value is finite) whenever the ordinates are finite and at most 2^1022 in magnitude *)
+Theorem C16_in_segment_finite_binary64 :
+  forall (tbl : libm_table) (x y : list PrimFloat.float) (m : mode PrimFloat.float),
+    (2 <= length x)%nat ->
+    (forall i, (i < length x)%nat -> PrimFloat.is_finite (nth i x 0%float) = true) ->
+    (forall i, (S i < length x)%nat -> PrimFloat.ltb (nth i x 0%float) (nth (S i) x 0%float) = true) ->
+    (forall i, (S i < length x)%nat ->
+               PrimFloat.is_finite (PrimFloat.sub (nth (S i) x 0%float) (nth i x 0%float)) = true) ->
+    forall t, PrimFloat.is_finite t = true ->
+    FR (nth 0 x 0%float) <= FR t <= FR (nth (length x - 1) x 0%float) ->
+    (forall i, (i < length x)%nat ->
+               PrimFloat.is_finite (nth i y 0%float) = true /\ Rabs (FR (nth i y 0%float)) <= 2 ^ 1022) ->
+    exists v, interp1 (FO tbl) x y (length x) m t = Some v /\ PrimFloat.is_finite v = true.
+Proof. exact @Proofs.C16Err.in_segment_finite_binary64. Qed.
+
+(** the hypotheses are satisfiable and the allowance is needed: abscissae [0, 1], both ordinates 1.9, target 5e-4: the value is
+    finite, neither product underflows, and it is one ulp ABOVE both ordinates (so the exact "between" fails, the rounded one holds) *)
+Example C16_example_between_up_to_rounding :
+  let x := [0; 1]%float in let y := [0x1.e666666666666p+0; 0x1.e666666666666p+0]%float in
+  let t := 0x1.0624dd2f1a9fcp-11%float in
+  (2 <= length x)%nat /\
+  (forall i, (i < length x)%nat -> PrimFloat.is_finite (nth i x 0%float) = true) /\
+  (forall i, (S i < length x)%nat -> PrimFloat.ltb (nth i x 0%float) (nth (S i) x 0%float) = true) /\
+  (forall i, (S i < length x)%nat -> PrimFloat.is_finite (nth (S i) x 0%float - nth i x 0%float)%float = true) /\
+  PrimFloat.is_finite t = true /\ FR (nth 0 x 0%float) <= FR t <= FR (nth (length x - 1) x 0%float) /\
+  let ratio := ((t - nth 0 x 0%float) / (nth 1 x 0%float - nth 0 x 0%float))%float in
+  let v := (ratio * nth 1 y 0%float + (1 - ratio) * nth 0 y 0%float)%float in
+  interp1 FO0 x y (length x) MPanic t = Some v /\ PrimFloat.is_finite v = true /\
+  (FR ratio * FR (nth 1 y 0%float) = 0 \/ / 2 ^ 1022 <= Rabs (FR ratio * FR (nth 1 y 0%float))) /\
+  (FR (1 - ratio) * FR (nth 0 y 0%float) = 0 \/ / 2 ^ 1022 <= Rabs (FR (1 - ratio) * FR (nth 0 y 0%float))) /\
+  PrimFloat.ltb (nth 0 y 0%float) v = true.
+Proof. exact Proofs.C16Err.between_example. Qed.
+Local Close Scope R_scope.
